@@ -235,7 +235,7 @@ theorem modelSteps_cons (h : Header) (op : Op) (ops : List Op) :
 /-- the model's history satisfies the fold of the predicate, and ends in the map the final
     header shows -/
 theorem foldOk_model (ops : List Op) : ∀ (h : Header), noGhost h = true →
-    foldOk (view h) (h.extension, (Pred.C01.canonH h).extProfile) ops (modelSteps h ops).1 =
+    foldOk (view h) (h.extension, h.extProfile) ops (modelSteps h ops).1 =
       some (view (modelSteps h ops).2) ∧
     noGhost (modelSteps h ops).2 = true := by
   induction ops with
